@@ -124,7 +124,19 @@ def evaluate(wm, knobs, plan, check, ctx):
                 break
         V("panic|%s" % where, "%s run terminated abnormally (%s): %s" % (mode, res.ending(), line))
         return viols, res
-    # sibling still processed
+    # a file that cannot be read as text is reported ...
+    for pth, e in sorted(wm["extra"].items()):
+        if e["t"] != "f" or not pth.endswith(".rs"):
+            continue
+        try:
+            e["data"].decode("utf-8")
+        except UnicodeDecodeError:
+            base = pth.rsplit("/", 1)[-1]
+            if base not in text:
+                V("unreadable-file-not-reported|%s" % mode, "%s is not valid UTF-8 but is mentioned nowhere in the output (exit %s)"
+                  % (base, res.status))
+            break
+    # ... and skipped while the sibling is still processed
     if check:
         rep = core.parse_report(text)
         if not any(f.endswith("zz_sibling.rs") for f, _l, _c in rep["missing"]):
